@@ -1,14 +1,14 @@
-\* exhaustive enumeration of the mandatory strata (every run): the model's invariants are checked on them as well
-SPECIFICATION StrataSpec
+\* connection age: two connections, config changes at run time, connections made again - the code's filter reads the live config
+SPECIFICATION Spec
 CONSTANTS
   Keys = {"k1"}
-  MaxOps = 4
+  MaxOps = 5
   MaxRedirects = 1
   FixOnce = TRUE
-  MaxVals = 2
+  MaxVals = 1
   HookDepth = 2
   OwnBytes = TRUE
-  Nodes = {}
+  Nodes = {"a", "b"}
   ConnConfig = "live"
 INVARIANTS StoredForm ReadBack OnlyWhenEnabled OffMeansOff
 CHECK_DEADLOCK FALSE
